@@ -266,6 +266,14 @@ func loadSites(path string) {
 
 func Worker(t *testing.T, a WorkerArgs) {
 	loadSites(a.Sites)
+	// The generator's environment names HTTP proxies, as CI hosts and corporate machines do. pandora connects to its
+	// target, never through an environment proxy; the addresses below have no listener on the simulated network.
+	// (Read once per process by net/http, so it is set before anything runs; grpc-go is dialled through simnet's own
+	// dialer and does not consult it.)
+	os.Setenv("HTTP_PROXY", "http://10.254.254.254:3128")
+	os.Setenv("HTTPS_PROXY", "http://10.254.254.253:3128")
+	os.Unsetenv("NO_PROXY")
+	os.Unsetenv("no_proxy")
 	// process-wide one-time registrations happen before the first run and outside any simulation, so that
 	// the first run of a process (e.g. a replay) takes exactly the same steps as a run later in a batch
 	ensureImport()
